@@ -8,7 +8,14 @@ This module also owns the network case format / generator / builder shared with 
             "edges": [{"src": k, "tgt": k, "ori": 0|1|-1, "w": float, "mid": [[x, y], ...]}, ...],
             "pre": bool        declare all nodes with addNode before the edges (else: edges first,
                                the way NetworkReader does, isolated nodes afterwards),
-            "by_node": bool    query with Node objects instead of ids,
+            "how": [hs, ht]    how the source / the target of a query is handed over, each one of HANDLES:
+                               "id" the node id | "own" the network's own Node object (getNode) | "fresh" a Node(id, coord)
+                               constructed for the query | "row" the Node object the builder created for the LAST edge row
+                               that mentions the node (the network keeps the object of the FIRST row only, as with
+                               NetworkReader) | "twin" the Node object of a second network built from the same case (and
+                               searched from node twin_src).  Node equality / hash are id based, so all five name the
+                               same node.  Absent: "by_node": bool (own / id for both),
+            "twin_src": int    (optional) source of the search the twin network has been through,
             "abscurv": bool    edge geometries carry abs_curv (NetworkReader invariant),
             "cuts": [[kind, value], ...]}               C06 tables only, see resolve_cuts()
 or the compact form of the enumerated space {"small": [[src, tgt, ori, w], ...]} (3 nodes a, b, c).
@@ -37,6 +44,11 @@ ASSUMPTIONS = [
     "oracle = Floyd-Warshall over arcs (src->tgt when orientation >= 0, tgt->src when orientation <= 0), D[u][u] = 0",
     "networks are built the way NetworkReader builds them: string ids, Edge(id, Track), orientation/weight set "
     "before Network.addEdge, node positions = geometry end points; Dijkstra mode (default routing method)",
+    "hand-over of nodes to the queries (case field how = [sources, targets], every combination): the id; the network's own "
+    "Node object (getNode); a Node(id, coord) constructed for the query; the Node object the builder created for the last "
+    "edge row naming the node (the network keeps the object of the first row, as with NetworkReader); the Node object of a "
+    "twin network built from the same case that has been through a search of its own.  Node.__eq__/__hash__ are id based and "
+    "the signatures say Union[int, Node], so all of them name the same node and the same answer is demanded",
     "weights are finite floats >= 0; comparisons are exact when every weight is a multiple of 0.5, else 1e-9 relative",
     "cut-offs closer than 1e-9 (relative) to a true distance are used only on exactly representable weights",
     "shortest_distance(s, t, cut=...) for a single pair is not constrained by the property (only the all-pairs table is)",
@@ -71,8 +83,12 @@ def expand_small(case, geom=False):
     for k, (s, t, o, w) in enumerate(case["small"]):
         mid = [[1.0 + k, 1.25 + j] for j in range(k % 3)] if geom else []
         edges.append({"src": s, "tgt": t, "ori": o, "w": float(w), "mid": mid})
+    # hand-over of sources / targets: a fixed function of the edge sequence, so that the enumerated space is spread
+    # over all 25 combinations
+    h = sum((i + 1) * (s * 27 + t * 9 + (o + 1) * 3 + int(w)) for i, (s, t, o, w) in enumerate(case["small"]))
     return {"ids": ["a", "b", "c"], "pos": [[0.0, 0.0], [4.0, 0.0], [0.0, 4.0]], "edges": edges,
-            "pre": True, "by_node": False, "abscurv": False,
+            "pre": True, "how": case.get("how", [HANDLES[h % 5], HANDLES[(h // 5) % 5]]), "twin_src": h // 25,
+            "abscurv": False,
             "cuts": [["abs", -1.0], ["abs", 1e300]] + [[kind, k] for k in range(7) for kind in ("at", "above")]}
 
 
@@ -131,7 +147,11 @@ def add_edge(net, case, j):
     edge = Edge("e%d" % j, tr)
     edge.orientation = e["ori"]
     edge.weight = e["w"]
-    net.addEdge(edge, Node(ids[e["src"]], tr.getFirstObs().position), Node(ids[e["tgt"]], tr.getLastObs().position))
+    a, b = Node(ids[e["src"]], tr.getFirstObs().position), Node(ids[e["tgt"]], tr.getLastObs().position)
+    net.addEdge(edge, a, b)
+    rows = net.__dict__.setdefault("_vt_rows", {})          # the per-row Node objects (the network kept the first per id)
+    rows.setdefault(a.id, []).append(a)
+    rows.setdefault(b.id, []).append(b)
 
 
 def build_network(case):
@@ -144,9 +164,50 @@ def build_network(case):
     return net
 
 
-def handle(net, case, k):
-    """what is passed to tracklib for node k: its id or the network's Node object"""
-    return net.getNode(case["ids"][k]) if case.get("by_node") else case["ids"][k]
+HANDLES = ["id", "own", "fresh", "row", "twin"]
+
+
+def how_of(case):
+    """(hand-over of sources, hand-over of targets)"""
+    h = case.get("how")
+    if h is None:
+        return ("own", "own") if case.get("by_node") else ("id", "id")
+    assert h[0] in HANDLES and h[1] in HANDLES
+    return h[0], h[1]
+
+
+def _twin(net, case):
+    """a second network with equal nodes (same ids, all declared), built from the same case and searched once, so that
+    its Node objects carry routing state of their own; one per tested network object"""
+    tw = net.__dict__.get("_vt_twin")
+    if tw is None:
+        tw = build_network(dict(case, pre=True, astar=None))
+        tw.run_routing_forward(case["ids"][int(case.get("twin_src", 0)) % len(case["ids"])])
+        net.__dict__["_vt_twin"] = tw
+    return tw
+
+
+def handle(net, case, k, role="s"):
+    """what is passed to tracklib for node k as source (role "s") or target (role "t"): its id, or a Node object that is
+    / is equal to the network's node (see HANDLES in the module docstring)"""
+    kind = how_of(case)[0 if role == "s" else 1]
+    nid = case["ids"][k]
+    if kind == "id":
+        return nid
+    if kind == "own":
+        return net.getNode(nid)
+    if kind == "twin":
+        return _twin(net, case).getNode(nid)
+    if kind == "row":
+        rows = net.__dict__.get("_vt_rows", {}).get(nid)
+        if rows:
+            return rows[-1]
+    return Node(nid, ENUCoords(case["pos"][k][0], case["pos"][k][1], 0))
+
+
+def how_labels(case):
+    hs, ht = how_of(case)
+    return ["src-as=" + hs, "tgt-as=" + ht] + (["src/tgt-not-the-network's-object"] if hs not in ("id", "own") and ht not in ("id", "own") else [])
 
 
 def agree(got, want, exact):
@@ -185,7 +246,7 @@ def classify(case, n, arcs, D, exact):
     edges = case["edges"]
     cls = ["exact-weights" if exact else "float-weights",
            "n<=3" if n <= 3 else "n4-7" if n <= 7 else "n8-12",
-           "m=0" if not edges else "m<=n" if len(edges) <= n else "m<=3n" if len(edges) <= 3 * n else "m>3n"]
+           "m=0" if not edges else "m<=n" if len(edges) <= n else "m<=3n" if len(edges) <= 3 * n else "m>3n"] + how_labels(case)
     unreachable = any(d == INF for d in D.values())
     pairs_of = {}
     for j, e in enumerate(edges):
@@ -232,7 +293,7 @@ def classify(case, n, arcs, D, exact):
 # checks
 def check_pair(case, net, s, t, D, exact):
     ids = case["ids"]
-    got = net.shortest_distance(handle(net, case, s), handle(net, case, t))
+    got = net.shortest_distance(handle(net, case, s), handle(net, case, t, "t"))
     want = D[(s, t)]
     if want == INF:
         if not got < 0:
@@ -320,7 +381,7 @@ def check_tables(case, net, n, D, exact):
         _check_table("prepare", net2.DISTANCES, want, ids, cut, exact)
         for s in range(n):
             for t in range(n):
-                a, b = handle(net2, case, s), handle(net2, case, t)
+                a, b = handle(net2, case, s), handle(net2, case, t, "t")
                 inside = (ids[s], ids[t]) in want
                 if bool(net2.has_prepared_shortest_distance(a, b)) != inside:
                     raise Violation("prepared-membership-wrong", "prepare(cut=%r): has_prepared_shortest_distance(%s,%s) = %r, "
@@ -420,7 +481,8 @@ def graph_cases(draw, geom=False, cuts=False, min_nodes=1, max_nodes=12, max_edg
     case = {"ids": list(draw(st.permutations(list(LETTERS[:n])))),
             "pos": [[draw(coord), draw(coord)] for _ in range(n)],
             "edges": edges,
-            "pre": draw(st.booleans()), "by_node": draw(st.booleans()),
+            "pre": draw(st.booleans()),
+            "how": [draw(st.sampled_from(HANDLES)), draw(st.sampled_from(HANDLES))], "twin_src": draw(st.integers(0, 11)),
             "abscurv": draw(st.integers(0, 2)) == 0 if geom else False,
             "cuts": []}
     if cuts:
@@ -567,7 +629,7 @@ def _judge_prepared(net, view, order, D, cut, exact, stale):
             key = (ids[x], ids[y])
             if key not in want and key in stale:
                 continue
-            ha, hb = handle(net, view, x), handle(net, view, y)
+            ha, hb = handle(net, view, x), handle(net, view, y, "t")
             if bool(net.has_prepared_shortest_distance(ha, hb)) != (key in want):
                 raise Violation("prepared-membership-wrong", "prepare(cut=%r): has_prepared_shortest_distance(%s,%s) = %r, "
                                 "true distance %r" % (cut, ids[x], ids[y], key not in want, D[(x, y)]))
@@ -711,7 +773,7 @@ def run_history(case, path_judge=None):
                 if dist_mode:
                     judge(lambda nt, od: check_pair(sview, nt, a, b, sD, exact), snet, sorder, sview, True)
                 else:
-                    snet.shortest_distance(handle(snet, sview, a), handle(snet, sview, b))
+                    snet.shortest_distance(handle(snet, sview, a), handle(snet, sview, b, "t"))
             elif kind == "sublist":
                 if dist_mode:
                     judge(lambda nt, od: check_list(sview, nt, a, sD, od, exact), snet, sorder, sview, True)
@@ -719,9 +781,9 @@ def run_history(case, path_judge=None):
                     snet.shortest_distance(handle(snet, sview, a))
             elif kind == "subpath":
                 if dist_mode:
-                    snet.shortest_path(handle(snet, sview, a), handle(snet, sview, b))
+                    snet.shortest_path(handle(snet, sview, a), handle(snet, sview, b, "t"))
                 elif a == b:
-                    judge(lambda nt, od: nt.shortest_path(handle(nt, sview, a), handle(nt, sview, b)), snet, sorder, sview, True)
+                    judge(lambda nt, od: nt.shortest_path(handle(nt, sview, a), handle(nt, sview, b, "t")), snet, sorder, sview, True)
                 else:
                     judge(lambda nt, od: jpath(sview, nt, a, b, sD), snet, sorder, sview, True)
             elif kind == "suball":
@@ -751,7 +813,7 @@ def run_history(case, path_judge=None):
             if dist_mode:
                 judge(lambda nt, od: check_pair(view, nt, a, b, D, exact), net, order, view, False)
             else:
-                net.shortest_distance(handle(net, view, a), handle(net, view, b))
+                net.shortest_distance(handle(net, view, a), handle(net, view, b, "t"))
         elif kind == "list":
             main_search(dist_mode)
             if dist_mode:
@@ -761,10 +823,10 @@ def run_history(case, path_judge=None):
         elif kind == "path":
             if dist_mode:
                 main_search(False)
-                net.shortest_path(handle(net, view, a), handle(net, view, b))
+                net.shortest_path(handle(net, view, a), handle(net, view, b, "t"))
             elif a == b:                  # nothing is demanded of the answer, but it must come
                 main_search(False)
-                judge(lambda nt, od: nt.shortest_path(handle(nt, view, a), handle(nt, view, b)), net, order, view, False)
+                judge(lambda nt, od: nt.shortest_path(handle(nt, view, a), handle(nt, view, b, "t")), net, order, view, False)
             else:
                 main_search(True)
                 judge(lambda nt, od: jpath(view, nt, a, b, D), net, order, view, False)
@@ -772,11 +834,11 @@ def run_history(case, path_judge=None):
             _, c = _one_cut(op[3], D, order, exact)
             main_search(False)
             if kind == "cutdist":
-                net.shortest_distance(handle(net, view, a), handle(net, view, b), cut=c)
+                net.shortest_distance(handle(net, view, a), handle(net, view, b, "t"), cut=c)
             elif dist_mode:
-                net.shortest_path(handle(net, view, a), handle(net, view, b), cut=c)
+                net.shortest_path(handle(net, view, a), handle(net, view, b, "t"), cut=c)
             else:
-                judge(lambda nt, od: nt.shortest_path(handle(nt, view, a), handle(nt, view, b), cut=c), net, order, view, False)
+                judge(lambda nt, od: nt.shortest_path(handle(nt, view, a), handle(nt, view, b, "t"), cut=c), net, order, view, False)
             labels.add("single-pair-cut-in-between")
         elif kind == "table":
             decidable, c = _one_cut(op[1], D, order, exact)
@@ -953,7 +1015,9 @@ def body_small_staged(case):
 
 RULE = ("pairs/tables: Hypothesis multigraphs of 1..12 nodes and 0..40 edges (self-loops, parallel and anti-parallel edges, "
         "orientations 0/+1/-1, weights from {0,1,2} / {0,.5,1,2,3.5} / floats in [0,100], isolated nodes, permuted ids, "
-        "nodes declared before or through the edges, queries by id or by Node); pairs: every ordered (s,t) incl. s=t through "
+        "nodes declared before or through the edges; sources and targets independently handed over as id / the network's Node "
+        "object / a fresh equal Node / the Node object of a later edge row / the Node object of a searched twin network, labels "
+        "src-as=*, tgt-as=*; in the enumerated spaces the combination is a fixed function of the edge sequence); pairs: every ordered (s,t) incl. s=t through "
         "shortest_distance(s,t) and the list form shortest_distance(s); tables: 1..4 cut-offs at / just below / just above a "
         "true distance, 0, negative, 1e9, 1e300, through all_shortest_distances(cut) and prepare(cut)+has_/prepared_shortest_distance; "
         "small: every edge sequence of length <= 2 (quick) / <= 3 (thorough) over 3 nodes, pairs + tables at every distinct "
